@@ -462,8 +462,11 @@ class Unit:
         """R23: `tokio::select! { [biased;] PAT = FUT [, if COND] => HANDLER, .. }` -> a nondeterministic choice among the
         enabled branches: `{ let vsel = vselect(); if vsel == 0 [&& COND] { let PAT = FUT; HANDLER } else if .. else { vselect_none() } }`.
         Which branch completes first is the scheduler's business, so every enabled branch may run; `biased` only orders
-        polling.  Only irrefutable patterns (identifier, `_`, `()`, tuples of those) are supported -- with a refutable
-        pattern a non-matching completion disables the branch and the others go on, which this expansion cannot express."""
+        polling.  A branch with a refutable pattern whose future completes with a value that does not match is DISABLED and
+        the others go on (tokio semantics); since a branch can be disabled at most once the expansion is unrolled:
+        `match FUT { PAT => HANDLER, _ => <the select without this branch> }`; when every branch is disabled the `else`
+        branch runs, and without one tokio panics ("all branches are disabled and there is no else branch") -> `vpanic()`,
+        an obligation of the function."""
         n = 0
         while True:
             bm = mask(body)
@@ -477,12 +480,34 @@ class Unit:
             if mb:
                 inner, im = inner[mb.end():], im[mb.end():]
             arms, pos = [], 0
+            else_handler = None
             while im[pos:].strip():
                 ma = re.compile(r'=>').search(im, pos)
                 if not ma:
                     raise Undecided('%s: cannot parse select! arm' % rec.name)
                 head = inner[pos:ma.start()]
                 hm = im[pos:ma.start()]
+                if head.strip() == 'else':
+                    j = ma.end()
+                    while im[j] in ' \t\n':
+                        j += 1
+                    if im[j] == '{':
+                        he = match_close(im, j) + 1
+                        else_handler = inner[j:he]
+                    else:
+                        k = j
+                        d = 0
+                        while k < len(im) and not (im[k] == ',' and d == 0):
+                            d += im[k] in '([{'
+                            d -= im[k] in ')]}'
+                            k += 1
+                        he = k
+                        else_handler = '{ ' + inner[j:he] + ' }'
+                    pos = he
+                    mc = re.match(r'\s*,', im[pos:])
+                    if mc:
+                        pos += mc.end()
+                    continue
                 eq = hm.index('=')
                 pat = head[:eq].strip()
                 fut = head[eq + 1:].strip()
@@ -490,8 +515,7 @@ class Unit:
                 parts = _split_top(fut, mask(fut), ', if ')
                 if len(parts) == 2:
                     fut, cond = parts[0].strip(), parts[1].strip()
-                if not re.fullmatch(r'(mut\s+)?[a-z_]\w*|\(\s*\)|\((\s*(mut\s+)?[a-z_]\w*\s*,?)+\)', pat):
-                    raise Undecided('%s: select! arm with refutable pattern `%s` is outside R23' % (rec.name, pat))
+                refutable = not re.fullmatch(r'(mut\s+)?[a-z_]\w*|\(\s*\)|\((\s*(mut\s+)?[a-z_]\w*\s*,?)+\)', pat)
                 j = ma.end()
                 while im[j] in ' \t\n':
                     j += 1
@@ -507,15 +531,31 @@ class Unit:
                         k += 1
                     he = k
                     handler = '{ ' + inner[j:he] + ' }'
-                arms.append((pat, fut, cond, handler))
+                arms.append((pat, fut, cond, handler, refutable))
                 pos = he
                 mc = re.match(r'\s*,', im[pos:])
                 if mc:
                     pos += mc.end()
-            out = '{ let vsel = vselect();\n'
-            for i, (pat, fut, cond, handler) in enumerate(arms):
-                out += ' %sif vsel == %d%s { let %s = %s; %s }\n' % ('else ' if i else '', i, (' && (%s)' % cond) if cond else '', pat, fut, handler)
-            out += ' else { vselect_none() } }'
+            def gen(disabled):
+                live = [i for i in range(len(arms)) if i not in disabled]
+                if not [i for i in live if True]:
+                    return else_handler if else_handler is not None else '{ vpanic() }'
+                o = '{ let vsel = vselect();\n'
+                first = True
+                for i in live:
+                    pat, fut, cond, handler, refutable = arms[i]
+                    c = (' && (%s)' % cond) if cond else ''
+                    if refutable:
+                        o += ' %sif vsel == %d%s { match %s { %s => %s, _ => %s } }\n' % ('' if first else 'else ', i, c, fut, pat, handler, gen(disabled | {i}))
+                    else:
+                        o += ' %sif vsel == %d%s { let %s = %s; %s }\n' % ('' if first else 'else ', i, c, pat, fut, handler)
+                    first = False
+                # every live branch pending forever (or disabled by its precondition): the select does not complete
+                o += ' else { vselect_none() } }'
+                return o
+            if len([a for a in arms if a[4]]) > 3:
+                raise Undecided('%s: select! with more than three refutable patterns is outside R23' % rec.name)
+            out = gen(frozenset())
             body = body[:mt.start()] + out + body[bc + 1:]
             n += 1
         if n == 0 and optional:
